@@ -14,6 +14,8 @@
  */
 #include "jcfg.h"
 
+/* as e2fsck/journal.c and debugfs/journal.c do: this unit carries the external definitions of the inline helpers of jfs_user.h / kernel-jbd.h */
+#define E2FSCK_INCLUDE_INLINE_FUNCS
 #include "e2fsck/recovery.c"
 #ifndef VF_NO_REVOKE
 /* STUB: hash_64() (jfs_user.h: 64-bit golden-ratio multiply, SAT-hostile) is replaced inside revoke.c by stub_hash_64():
